@@ -149,8 +149,8 @@ impl<T: Eq + Hash> ReversePurgeItemHashMap<T> {
     // proved in fi_map (`new`): an empty table of the given power-of-two size
     #[verifier::external_body]
     fn new(map_size: usize) -> (r: Self)
-      requires exists|lg: u8| 1 <= lg <= 40 && map_size == pow2(lg as nat),
-      ensures r.wf(), r.states@.len() == map_size, r.load_threshold == map_size * 3 / 4, r.num_active == 0,
+      requires 2 <= map_size <= pow2(40),
+      ensures exists|j: nat| j < 64 && map_size == pow2(j), r.wf(), r.states@.len() == map_size, r.load_threshold == map_size * 3 / 4, r.num_active == 0,
         forall|p: int| 0 <= p < r.states@.len() ==> r.states@[p] == 0,
     { unimplemented!() }
 
@@ -362,6 +362,17 @@ impl<T: Eq + Hash> FrequentItemsSketch<T> {
         &&& self.hash_map.msum() + self.offset <= self.stream_weight
     }
     spec fn wf(&self) -> bool { self.wf_but(0) }
+    // the codec-level invariant (VERBATIM from contracts/fi_codec.rs); implied by wf()
+    spec fn cwf(&self) -> bool {
+        &&& eq_law::<T>() && self.hash_map.mwf()
+        &&& 3 <= self.hash_map.lg_length <= self.lg_max_map_size <= 40
+        &&& self.cur_map_cap == cap_of_lg(self.hash_map.lg_length)
+        &&& self.hash_map.num_active <= self.cur_map_cap
+    }
+    proof fn lemma_cwf(&self)
+      requires self.wf()
+      ensures self.cwf()
+    { lemma_mwf_of_wf(self.hash_map); }
     spec fn lb_spec(&self, x: T) -> nat { self.hash_map.val(x) as nat }
     spec fn ub_spec(&self, x: T) -> nat { (self.hash_map.val(x) + self.offset) as nat }
     // the property: the true count of every item (tracked or not) is bracketed, the total weight is exact
@@ -377,7 +388,8 @@ LG_MIN_MAP_SIZE }
 ) ,
 /*@C07.empty_model*/ r . models ( Seq :: < ( T , u64 ) > :: empty ( ) ) ,
 /*@C18.fi_capacity*/ r . hash_map . num_active <= cap_of ( r . lg_max_map_size ) ,
-/*@C07.purge_sample_size*/ r . sample_size as nat == ( if cap_of ( r . lg_max_map_size ) < 1024 { cap_of ( r . lg_max_map_size ) } else { 1024 } ) , {
+/*@C07.purge_sample_size*/ r . sample_size as nat == ( if cap_of ( r . lg_max_map_size ) < 1024 { cap_of ( r . lg_max_map_size ) } else { 1024 } ) ,
+/*@C07.new.codec_view*/ r . cwf ( ) , r . hash_map . lg_length == lgmax3 ( lg_cur_map_size ) , r . hash_map . num_active == 0 , r . stream_weight == 0 , r . offset == 0 , forall | k : T | ! r . hash_map . holds ( k ) , {
 let lg_max = lg_max_map_size . max ( LG_MIN_MAP_SIZE ) ;
 let lg_cur = lg_cur_map_size . max ( LG_MIN_MAP_SIZE ) ;
 assert! ( lg_cur <= lg_max ) ;
@@ -386,6 +398,11 @@ lemma_shl ( lg_cur ) ;
 lemma_shl ( lg_max ) ;
 lemma_len_bound ( lg_cur ) ;
 lemma_len_bound ( lg_max ) ;
+vstd :: arithmetic :: power2 :: lemma2_to64 ( ) ;
+vstd :: arithmetic :: power2 :: lemma_pow2_strictly_increases ( 1 , lg_cur as nat ) ;
+if lg_cur < 40 {
+vstd :: arithmetic :: power2 :: lemma_pow2_strictly_increases ( lg_cur as nat , 40 ) ;
+}
 }
 let map = ReversePurgeItemHashMap :: new ( 1usize << lg_cur ) ;
 let cur_map_cap = map . capacity ( ) ;
@@ -393,6 +410,7 @@ let max_map_cap = ( 1usize << lg_max ) * LOAD_FACTOR_NUMERATOR / LOAD_FACTOR_DEN
 let sample_size = SAMPLE_SIZE . min ( max_map_cap ) ;
 proof {
 lemma_empty_map ( map , lg_cur ) ;
+lemma_mwf_of_wf ( map ) ;
 }
 Self {
 lg_max_map_size : lg_max , cur_map_cap , offset : 0 , stream_weight : 0 , sample_size , hash_map : map , }
@@ -533,9 +551,13 @@ lemma_shl ( self . lg_max_map_size ) ;
     fn update_with_count ( & mut self , item : T , count : u64 ) requires old ( self ) . wf ( ) , old ( self ) . stream_weight + count <= u64 :: MAX , ensures final ( self ) . wf ( ) ,
 /*@C07.update*/ forall | h : Seq < ( T , u64 ) > | # [ trigger ] old ( self ) . models ( h ) ==> final ( self ) . models ( h . push ( ( item , count ) ) ) ,
 /*@C07.update_total*/ final ( self ) . stream_weight == old ( self ) . stream_weight + count ,
-/*@C18.fi_capacity*/ final ( self ) . hash_map . num_active <= cap_of ( final ( self ) . lg_max_map_size ) , final ( self ) . lg_max_map_size == old ( self ) . lg_max_map_size , {
+/*@C18.fi_capacity*/ final ( self ) . hash_map . num_active <= cap_of ( final ( self ) . lg_max_map_size ) , final ( self ) . lg_max_map_size == old ( self ) . lg_max_map_size ,
+/*@C07.update.codec_wf*/ final ( self ) . cwf ( ) ,
+/*@C07.update.zero_is_noop*/ count == 0 ==> final ( self ) . hash_map == old ( self ) . hash_map && final ( self ) . offset == old ( self ) . offset ,
+/*@C07.update.exact_with_room*/ count > 0 && ( old ( self ) . hash_map . holds ( item ) || old ( self ) . hash_map . num_active < old ( self ) . cur_map_cap ) ==> final ( self ) . offset == old ( self ) . offset && upd_exact ( old ( self ) . hash_map , final ( self ) . hash_map , item , count ) , {
 if count == 0 {
 proof {
+self . lemma_cwf ( ) ;
 assert forall | h : Seq < ( T , u64 ) > | # [ trigger ] old ( self ) . models ( h ) implies self . models ( h . push ( ( item , count ) ) ) by {
 lemma_push ( h , item , count ) ;
 }
@@ -560,6 +582,9 @@ assert ( old ( self ) . lb_spec ( x ) <= truth ( h , x ) <= old ( self ) . ub_sp
 }
 }
 self . maybe_resize_or_purge ( ) ;
+proof {
+self . lemma_cwf ( ) ;
+}
 }
 
 
@@ -755,7 +780,8 @@ rows }
 
     fn maybe_resize_or_purge ( & mut self ) requires old ( self ) . wf_but ( 1 ) , ensures final ( self ) . wf ( ) , final ( self ) . stream_weight == old ( self ) . stream_weight , final ( self ) . lg_max_map_size == old ( self ) . lg_max_map_size ,
 /*@C18.fi_capacity*/ final ( self ) . hash_map . num_active <= cap_of ( final ( self ) . lg_max_map_size ) ,
-/*@C07.purge_keeps_bracket*/ forall | h : Seq < ( T , u64 ) > | # [ trigger ] old ( self ) . models ( h ) ==> final ( self ) . models ( h ) , {
+/*@C07.purge_keeps_bracket*/ forall | h : Seq < ( T , u64 ) > | # [ trigger ] old ( self ) . models ( h ) ==> final ( self ) . models ( h ) ,
+/*@C07.no_purge_with_room*/ old ( self ) . hash_map . num_active <= old ( self ) . cur_map_cap ==> * final ( self ) == * old ( self ) , {
 if self . hash_map . num_active ( ) > self . cur_map_cap {
 if self . hash_map . lg_length ( ) < self . lg_max_map_size {
 proof {
@@ -845,6 +871,53 @@ proof fn lemma_iter_done<T>(ks: Seq<Option<T>>, vs: Seq<u64>, st: Seq<u16>, y: S
     }
 }
 // a table without active slots: nothing held, sum 0, every run short, lg_length determined by the size
+// ================= codec-level restatement: what unit fi_codec ASSUMES of with_lg_map_sizes / update_with_count =================
+// definitions VERBATIM from contracts/fi_codec.rs (act_vals, mwf, holds, cwf, cap_of_lg, lgmax3, upd_exact); the clauses are proved below
+spec fn act_vals(vs: Seq<u64>, st: Seq<u16>, n: int) -> Seq<u64> decreases n {
+    if n <= 0 { Seq::empty() } else if st[n - 1] > 0 { act_vals(vs, st, n - 1).push(vs[n - 1]) } else { act_vals(vs, st, n - 1) }
+}
+spec fn lgmax3(l: u8) -> u8 { if l >= 3 { l } else { 3 } }
+spec fn cap_of_lg(l: u8) -> int { (pow2(l as nat) * 3 / 4) as int }
+impl<T> ReversePurgeItemHashMap<T> {
+    // the part of the map invariant of unit fi_map the codec relies on
+    spec fn mwf(&self) -> bool {
+        &&& 1 <= self.lg_length <= 40 && self.keys@.len() == pow2(self.lg_length as nat) && self.values@.len() == self.keys@.len() && self.states@.len() == self.keys@.len()
+        &&& forall|p: int| 0 <= p < self.states@.len() && self.states@[p] > 0 ==> (#[trigger] self.keys@[p]) is Some
+        &&& fdistinct(self.keys@, self.states@)
+        &&& self.num_active == act_vals(self.values@, self.states@, self.states@.len() as int).len()
+    }
+    spec fn holds(&self, k: T) -> bool { fholds(self.keys@, self.states@, k) }
+}
+// what `update_with_count` does to the map while it has room (no resize, no purge): counter(item) += count
+spec fn upd_exact<T>(m0: ReversePurgeItemHashMap<T>, m1: ReversePurgeItemHashMap<T>, item: T, count: u64) -> bool {
+    &&& m1.lg_length == m0.lg_length
+    &&& forall|k: T| m1.holds(k) == (m0.holds(k) || k == item)
+    &&& forall|k: T| m1.val(k) == (if k == item { (m0.val(k) + count) as u64 } else { m0.val(k) })
+    &&& m1.num_active == m0.num_active + (if m0.holds(item) { 0int } else { 1int })
+}
+spec fn focc_upto(st: Seq<u16>, n: int) -> Set<int> { Set::range(0, n).filter(|i: int| st[i] > 0) }
+// the active values, listed in slot order, are as many as the occupied slots
+proof fn lemma_act_focc(vs: Seq<u64>, st: Seq<u16>, n: int)
+  requires 0 <= n <= st.len()
+  ensures act_vals(vs, st, n).len() == focc_upto(st, n).len()
+  decreases n
+{
+    if n == 0 { assert(focc_upto(st, 0) =~= Set::<int>::empty()); }
+    else {
+        lemma_act_focc(vs, st, n - 1);
+        if st[n - 1] > 0 { assert(focc_upto(st, n) =~= focc_upto(st, n - 1).insert(n - 1)); assert(!focc_upto(st, n - 1).contains(n - 1)); }
+        else { assert(focc_upto(st, n) =~= focc_upto(st, n - 1)); }
+    }
+}
+proof fn lemma_mwf_of_wf<T>(m: ReversePurgeItemHashMap<T>)
+  requires m.wf()
+  ensures m.mwf()
+{
+    let st = m.states@;
+    lemma_act_focc(m.values@, st, st.len() as int);
+    assert(focc_upto(st, st.len() as int) =~= focc(st));
+    assert forall|p: int| 0 <= p < st.len() && st[p] > 0 implies (#[trigger] m.keys@[p]) is Some by { assert(freach_at(m.keys@, st, p)); }
+}
 proof fn lemma_empty_map<T>(m: ReversePurgeItemHashMap<T>, lg: u8)
   requires m.wf(), 3 <= lg <= 40, m.states@.len() == pow2(lg as nat), forall|p: int| 0 <= p < m.states@.len() ==> m.states@[p] == 0,
   ensures m.msum() == 0, m.pos_vals(), runs_short(m.states@), m.lg_length == lg, forall|k: T| m.val(k) == 0,
